@@ -1152,7 +1152,7 @@ func c18EmitProtocol(c *Ctx, rule string) {
 							case IsCallTo(x, "(*go.uber.org/zap/zapcore.CheckedEntry).Write"):
 								return "write"
 							case CallBuiltin(x) == "append":
-								if sl, ok := types.Unalias(x.Type()).Underlying().(*types.Slice); ok && strings.HasSuffix(sl.Elem().String(), "zapcore.Field") {
+								if sl, ok := types.Unalias(x.Type()).Underlying().(*types.Slice); ok && strings.HasSuffix(TStr(sl.Elem()), "zapcore.Field") {
 									return "add"
 								}
 							}
@@ -1450,7 +1450,7 @@ func cDelegatesOnly(c *Ctx, rule string, fn *ssa.Function, slot, what string, al
 	}
 	var encP ssa.Value
 	for _, p := range fn.Params {
-		if strings.HasSuffix(p.Type().String(), "zapcore.ObjectEncoder") || strings.HasSuffix(p.Type().String(), "zapcore.ArrayEncoder") {
+		if strings.HasSuffix(TStr(p.Type()), "zapcore.ObjectEncoder") || strings.HasSuffix(TStr(p.Type()), "zapcore.ArrayEncoder") {
 			encP = p
 		}
 	}
@@ -1533,7 +1533,7 @@ func c18GroupsField(c *Ctx) {
 
 func isFieldList(t types.Type) bool {
 	sl, ok := types.Unalias(t).Underlying().(*types.Slice)
-	return ok && strings.HasSuffix(sl.Elem().String(), "zapcore.Field")
+	return ok && strings.HasSuffix(TStr(sl.Elem()), "zapcore.Field")
 }
 
 // c18ElemTag: one element of the field list handed on: S a converted attribute known to be Skip on this path, R one
